@@ -38,17 +38,19 @@ type recSpec struct {
 	Key     string `json:"k"`
 	St      string `json:"st"`
 	G       string `json:"g"`
+	NoRel   bool   `json:"norel,omitempty"`   // rel == "" instead of "x" (matches the relempty cap)
 	Expired bool   `json:"expired,omitempty"` // ExpiredAt one minute before the run (PatchExpired candidates)
 }
 
 // capSpec: the one Cap every cap-bearing request of the schedule carries.
-// Filter kinds: st (st == "claimed"), stin (st in [claimed run]), scope (g == "a" AND st == "claimed").
+// Filter kinds: st (st == "claimed"), stin (st in [claimed run]), scope (g == "a" AND st == "claimed"),
+// relempty (rel IS_EMPTY: the field is absent or "" - a filter the empty map satisfies).
 type capSpec struct {
 	Kind string `json:"kind"`
 	Max  int32  `json:"max"`
 }
 
-// keyPatch is one TreasurePatch of a PatchTreasures batch: SET st = St on Key.
+// keyPatch is one TreasurePatch of a PatchTreasures batch: SET <the field Cap.Filter reads> = St on Key.
 type keyPatch struct {
 	Key string `json:"key"`
 	St  string `json:"st"`
@@ -62,6 +64,22 @@ type op struct {
 	HowMany int32      `json:"howmany,omitempty"`
 	Scoped  bool       `json:"scoped,omitempty"` // pex: Filters narrows the selection to records that will enter Cap.Filter
 	Force   bool       `json:"force,omitempty"`  // patch: delayed 1 virtual ms between its count and the cap mutex
+	Create  bool       `json:"create,omitempty"` // patch: CreateIfNotExist (keys n.. do not exist yet)
+	Seed    *seedSpec  `json:"seed,omitempty"`   // patch+Create: InitialMsgpackOnCreate; nil = the default empty map
+}
+
+// seedSpec is the body a created record starts from.
+type seedSpec struct {
+	St  string `json:"st"`
+	G   string `json:"g"`
+	Rel string `json:"rel"`
+}
+
+func (sd *seedSpec) body() body {
+	if sd == nil {
+		return body{}
+	}
+	return body{St: sd.St, G: sd.G, Rel: sd.Rel}
 }
 
 type sched struct {
@@ -75,16 +93,61 @@ type sched struct {
 
 func (o *op) capBearing() bool { return o.Kind != "release" }
 
-func (c capSpec) matches(st, g string) bool {
+// field is the body field Cap.Filter decides on (the one the patches of a schedule write).
+func (c capSpec) field() string {
+	if c.Kind == "relempty" {
+		return "rel"
+	}
+	return "st"
+}
+
+// enter / leave: values of that field that put a record into / out of the filter.
+func (c capSpec) enter() string {
+	if c.Kind == "relempty" {
+		return ""
+	}
+	return "claimed"
+}
+
+func (c capSpec) leave() string {
+	if c.Kind == "relempty" {
+		return "x"
+	}
+	return "done"
+}
+
+// matchesVal: does a record whose decisive field has value v (and whose g is g) match Cap.Filter.
+func (c capSpec) matchesVal(v, g string) bool {
 	switch c.Kind {
 	case "st":
-		return st == "claimed"
+		return v == "claimed"
 	case "stin":
-		return st == "claimed" || st == "run"
+		return v == "claimed" || v == "run"
 	case "scope":
-		return g == "a" && st == "claimed"
+		return g == "a" && v == "claimed"
+	case "relempty":
+		return v == ""
 	}
 	return false
+}
+
+func (c capSpec) val(b body) string {
+	if c.Kind == "relempty" {
+		return b.Rel
+	}
+	return b.St
+}
+
+func (c capSpec) matchesBody(b body) bool { return b.Bad == "" && c.matchesVal(c.val(b), b.G) }
+
+// with returns b with the decisive field set to v.
+func (c capSpec) with(b body, v string) body {
+	if c.Kind == "relempty" {
+		b.Rel = v
+	} else {
+		b.St = v
+	}
+	return b
 }
 
 func strLeg(path string, op hydrapb.Relational_Operator, v string) *hydrapb.TreasureFilter {
@@ -101,6 +164,9 @@ func (c capSpec) pb() *hydrapb.Cap {
 		g.Filters = []*hydrapb.TreasureFilter{{Operator: hydrapb.Relational_STRING_IN, BytesFieldPath: &st, StringInVals: []string{"claimed", "run"}}}
 	case "scope":
 		g.Filters = []*hydrapb.TreasureFilter{strLeg("g", hydrapb.Relational_EQUAL, "a"), strLeg("st", hydrapb.Relational_EQUAL, "claimed")}
+	case "relempty":
+		rel := "rel"
+		g.Filters = []*hydrapb.TreasureFilter{{Operator: hydrapb.Relational_IS_EMPTY, BytesFieldPath: &rel}}
 	}
 	return &hydrapb.Cap{Filter: g, MaxMatching: c.Max}
 }
@@ -112,6 +178,7 @@ type body struct {
 	Pv  int64  `json:"pv,omitempty"`
 	St  string `json:"st"`
 	G   string `json:"g"`
+	Rel string `json:"rel"` // "" when the field is absent or empty
 	Cs  []int  `json:"cs,omitempty"`
 	Bad string `json:"bad,omitempty"`
 }
@@ -126,8 +193,8 @@ func mp(v any) []byte {
 	return buf.Bytes()
 }
 
-func encodeBody(ver int64, st, g string) []byte {
-	return append([]byte{0xC7, 0x00}, mp(map[string]any{"ver": ver, "pv": int64(0), "st": st, "g": g})...)
+func encodeBody(ver int64, st, g, rel string) []byte {
+	return append([]byte{0xC7, 0x00}, mp(map[string]any{"ver": ver, "pv": int64(0), "st": st, "g": g, "rel": rel})...)
 }
 
 func toI64(v any) int64 {
@@ -163,6 +230,7 @@ func decodeBody(b []byte) body {
 	out := body{Ver: toI64(m["ver"]), Pv: toI64(m["pv"])}
 	out.St, _ = m["st"].(string)
 	out.G, _ = m["g"].(string)
+	out.Rel, _ = m["rel"].(string)
 	for k := range m {
 		if len(k) > 1 && k[0] == 'c' {
 			if i, err := strconv.Atoi(k[1:]); err == nil {
@@ -255,9 +323,15 @@ func (d *driver) exec(i int, o *op, ev *event) {
 		if o.Kind == "patch" {
 			req.Cap = cp
 		}
+		if o.Create {
+			req.CreateIfNotExist = true
+			if o.Seed != nil {
+				req.InitialMsgpackOnCreate = mp(map[string]any{"st": o.Seed.St, "g": o.Seed.G, "rel": o.Seed.Rel})
+			}
+		}
 		for j, p := range o.Patches {
 			req.Patches = append(req.Patches, &hydrapb.TreasurePatch{Key: p.Key, Ops: []*hydrapb.PatchOp{
-				{Op: hydrapb.PatchOp_SET, Path: "pv", Value: mp(token(i, j))}, {Op: hydrapb.PatchOp_SET, Path: "st", Value: mp(p.St)}}})
+				{Op: hydrapb.PatchOp_SET, Path: "pv", Value: mp(token(i, j))}, {Op: hydrapb.PatchOp_SET, Path: d.s.Cap.field(), Value: mp(p.St)}}})
 		}
 		resp, err := gw.PatchTreasures(d.ctx, req)
 		if err != nil || resp == nil || len(resp.GetResults()) != len(o.Patches) {
@@ -271,7 +345,7 @@ func (d *driver) exec(i int, o *op, ev *event) {
 	case "pex":
 		one := int64(1)
 		req := &hydrapb.PatchExpiredTreasuresRequest{IslandID: d.island, SwampName: swampName, HowMany: o.HowMany, Cap: cp,
-			Ops:  []*hydrapb.PatchOp{{Op: hydrapb.PatchOp_SET, Path: fmt.Sprintf("c%d", i), Value: mp(one)}, {Op: hydrapb.PatchOp_SET, Path: "st", Value: mp("claimed")}},
+			Ops:  []*hydrapb.PatchOp{{Op: hydrapb.PatchOp_SET, Path: fmt.Sprintf("c%d", i), Value: mp(one)}, {Op: hydrapb.PatchOp_SET, Path: d.s.Cap.field(), Value: mp(d.s.Cap.enter())}},
 			Meta: &hydrapb.PatchMeta{SetExpiredAt: ts(d.now + int64(time.Hour) + int64(i+1)*int64(time.Second))}}
 		if o.Scoped {
 			f := &hydrapb.FilterGroup{Logic: hydrapb.FilterLogic_AND, Filters: []*hydrapb.TreasureFilter{strLeg("st", hydrapb.Relational_EQUAL, "pending")}}
@@ -379,9 +453,13 @@ func runBubble(t *testing.T, s *sched, lg *runLog, root string) {
 				lg.Incon = fmt.Sprintf(f, a...)
 			}
 		}
-		kvs := []*hydrapb.KeyValuePair{{Key: anchorKey, BytesVal: append([]byte{0xC7, 0x00}, mp(map[string]any{"anchor": int64(1)})...)}}
+		kvs := []*hydrapb.KeyValuePair{{Key: anchorKey, BytesVal: append([]byte{0xC7, 0x00}, mp(map[string]any{"anchor": int64(1), "rel": "x"})...)}}
 		for i, rc := range s.Recs {
-			kv := &hydrapb.KeyValuePair{Key: rc.Key, BytesVal: encodeBody(int64(i+1), rc.St, rc.G)}
+			rel := "x"
+			if rc.NoRel {
+				rel = ""
+			}
+			kv := &hydrapb.KeyValuePair{Key: rc.Key, BytesVal: encodeBody(int64(i+1), rc.St, rc.G, rel)}
 			if rc.Expired {
 				kv.ExpiredAt = ts(d.now - int64(time.Minute) + int64(i)*1000)
 			}
@@ -486,7 +564,7 @@ func runBubble(t *testing.T, s *sched, lg *runLog, root string) {
 							return false
 						}
 						b := decodeBody(raw)
-						return b.Bad == "" && s.Cap.matches(b.St, b.G)
+						return s.Cap.matchesBody(b)
 					})
 					at := seq.Add(1)
 					sw.UnlockCapMu()
